@@ -149,4 +149,306 @@ theorem simple_bounds {t : Simple} {x : BoundSet} (h : evalSimple t = some x) :
       | succ M => exact of_new h (by fp) (by fq)
   | garbage tok => cases h
 
+/-! ### bounds of a folded alternative are bounds of its comparators -/
+
+def LoFrom (l : List Simple) (P : Pred) : Prop :=
+  ∃ t ∈ l, ∃ np, simplePartial t = some np ∧ fromPartial np P
+def UpFrom (l : List Simple) (Q : Pred) : Prop :=
+  ∃ t ∈ l, ∃ np, simplePartial t = some np ∧ (fromPartial np Q ∨ dash0 Q)
+
+theorem LoFrom.mono {l l' : List Simple} {P : Pred} (h : LoFrom l P) (hs : ∀ t ∈ l, t ∈ l') : LoFrom l' P := by
+  obtain ⟨t, ht, r⟩ := h; exact ⟨t, hs t ht, r⟩
+theorem UpFrom.mono {l l' : List Simple} {Q : Pred} (h : UpFrom l Q) (hs : ∀ t ∈ l, t ∈ l') : UpFrom l' Q := by
+  obtain ⟨t, ht, r⟩ := h; exact ⟨t, hs t ht, r⟩
+
+theorem intersect_bounds {P Q P' Q' : Pred} {r : BoundSet}
+    (h : (BoundSet.mk (up Q) (lo P)).intersect ⟨up Q', lo P'⟩ = some r) :
+    ∃ P'' Q'', r = ⟨up Q'', lo P''⟩ ∧ (P'' = P ∨ P'' = P') ∧ (Q'' = Q ∨ Q'' = Q') := by
+  rw [intersect_mk] at h
+  refine ⟨_, _, new_eq_some h, ?_, ?_⟩
+  · unfold maxLo; split
+    · exact Or.inl rfl
+    · exact Or.inr rfl
+  · unfold minUp; split
+    · exact Or.inr rfl
+    · exact Or.inl rfl
+
+theorem foldl_none (l : List BoundSet) :
+    l.foldl (fun a b => a.bind (·.intersect b)) (none : Option BoundSet) = none := by
+  induction l with
+  | nil => rfl
+  | cons x xs ih => simpa using ih
+
+theorem foldl_from (l : List Simple) (seen : List Simple) (P Q : Pred) (hP : LoFrom seen P) (hQ : UpFrom seen Q)
+    (r : BoundSet)
+    (h : ((l.map evalSimple).filterMap id).foldl (fun a b => a.bind (·.intersect b)) (some ⟨up Q, lo P⟩) = some r) :
+    ∃ P' Q', r = ⟨up Q', lo P'⟩ ∧ LoFrom (seen ++ l) P' ∧ UpFrom (seen ++ l) Q' := by
+  induction l generalizing seen P Q with
+  | nil =>
+    simp only [List.map_nil, List.filterMap_nil, List.foldl_nil, Option.some.injEq] at h
+    subst h
+    exact ⟨P, Q, rfl, by simpa using hP, by simpa using hQ⟩
+  | cons t l ih =>
+    have hsub : ∀ u ∈ seen, u ∈ seen ++ [t] := fun u hu => by simp [hu]
+    have happ : seen ++ t :: l = (seen ++ [t]) ++ l := by simp
+    cases ht : evalSimple t with
+    | none =>
+      simp only [List.map_cons, ht, List.filterMap_cons, id] at h
+      rw [happ]
+      exact ih (seen ++ [t]) P Q (hP.mono hsub) (hQ.mono hsub) h
+    | some x =>
+      simp only [List.map_cons, ht, List.filterMap_cons, id, List.foldl_cons, Option.bind_some] at h
+      obtain ⟨np, hnp, P', Q', rfl, hP', hQ'⟩ := simple_bounds ht
+      cases hi : (BoundSet.mk (up Q) (lo P)).intersect ⟨up Q', lo P'⟩ with
+      | none => rw [hi, foldl_none] at h; cases h
+      | some a =>
+        rw [hi] at h
+        obtain ⟨P'', Q'', rfl, hPP, hQQ⟩ := intersect_bounds hi
+        rw [happ]
+        apply ih (seen ++ [t]) P'' Q'' ?_ ?_ h
+        · rcases hPP with rfl | rfl
+          · exact hP.mono hsub
+          · exact ⟨t, by simp, np, hnp, hP'⟩
+        · rcases hQQ with rfl | rfl
+          · exact hQ.mono hsub
+          · exact ⟨t, by simp, np, hnp, hQ'⟩
+
+/-- **the bounds of a folded comparator list come from its comparators** -/
+theorem fold_bounds (l : List Simple) (r : BoundSet) (h : r ∈ foldSets (l.map evalSimple)) :
+    ∃ P Q, r = ⟨up Q, lo P⟩ ∧ LoFrom l P ∧ UpFrom l Q := by
+  induction l with
+  | nil => simp [foldSets] at h
+  | cons t l ih =>
+    cases ht : evalSimple t with
+    | none =>
+      have : foldSets ((t :: l).map evalSimple) = foldSets (l.map evalSimple) := by
+        simp only [List.map_cons, ht]
+        exact (C02.C02_garbage_ignored _).1
+      rw [this] at h
+      obtain ⟨P, Q, hr, hP, hQ⟩ := ih h
+      exact ⟨P, Q, hr, hP.mono (fun u hu => by simp [hu]), hQ.mono (fun u hu => by simp [hu])⟩
+    | some x =>
+      obtain ⟨np, hnp, P, Q, rfl, hP, hQ⟩ := simple_bounds ht
+      unfold foldSets at h
+      simp only [List.map_cons, ht, List.filterMap_cons, id] at h
+      cases hf : ((l.map evalSimple).filterMap id).foldl
+          (fun (a : Option BoundSet) (b : BoundSet) => a.bind (·.intersect b))
+          (some (BoundSet.mk (up Q) (lo P))) with
+      | none => rw [hf] at h; simp at h
+      | some a =>
+        rw [hf] at h
+        simp only [List.mem_singleton] at h
+        subst h
+        have := foldl_from l [t] P Q ⟨t, by simp, np, hnp, hP⟩ ⟨t, by simp, np, hnp, hQ⟩ r hf
+        simpa using this
+
+/-! ### hyphen ranges -/
+
+theorem hyphen_bounds (l h : NP) (x : BoundSet) (hx : x ∈ evalAlt (.hyphen l h)) :
+    ∃ P Q, x = ⟨up Q, lo P⟩ ∧ fromPartial l P ∧ (fromPartial h Q ∨ dash0 Q) := by
+  simp only [evalAlt, Option.mem_toList] at hx
+  have key : ∀ (P Q : Pred), BoundSet.new (lo P) (up Q) = some x → fromPartial l P →
+      (fromPartial h Q ∨ dash0 Q) → ∃ P Q, x = ⟨up Q, lo P⟩ ∧ fromPartial l P ∧ (fromPartial h Q ∨ dash0 Q) :=
+    fun P Q hn hP hQ => ⟨P, Q, new_eq_some hn, hP, hQ⟩
+  cases l with
+  | any =>
+    cases h with
+    | any => exact key (inc (Version.mk3 0 0 0)) unb hx (by fp) (by fq)
+    | maj M => exact key unb (exc (Version.mk4 (M + 1) 0 0 0)) hx (by fp) (by fq)
+    | majMin M m => exact key unb (exc (Version.mk4 M (m + 1) 0 0)) hx (by fp) (by fq)
+    | full M m p pre build => exact key unb (inc ⟨M, m, p, pre, build⟩) hx (by fp) (by fq)
+  | maj A =>
+    cases h with
+    | any => exact key (inc ⟨A, 0, 0, [], []⟩) unb hx (by fp) (by fq)
+    | maj M => exact key (inc ⟨A, 0, 0, [], []⟩) (exc (Version.mk4 (M + 1) 0 0 0)) hx (by fp) (by fq)
+    | majMin M m => exact key (inc ⟨A, 0, 0, [], []⟩) (exc (Version.mk4 M (m + 1) 0 0)) hx (by fp) (by fq)
+    | full M m p pre build => exact key (inc ⟨A, 0, 0, [], []⟩) (inc ⟨M, m, p, pre, build⟩) hx (by fp) (by fq)
+  | majMin A B =>
+    cases h with
+    | any => exact key (inc ⟨A, B, 0, [], []⟩) unb hx (by fp) (by fq)
+    | maj M => exact key (inc ⟨A, B, 0, [], []⟩) (exc (Version.mk4 (M + 1) 0 0 0)) hx (by fp) (by fq)
+    | majMin M m => exact key (inc ⟨A, B, 0, [], []⟩) (exc (Version.mk4 M (m + 1) 0 0)) hx (by fp) (by fq)
+    | full M m p pre build => exact key (inc ⟨A, B, 0, [], []⟩) (inc ⟨M, m, p, pre, build⟩) hx (by fp) (by fq)
+  | full A B C pre' build' =>
+    cases h with
+    | any => exact key (inc ⟨A, B, C, pre', build'⟩) unb hx (by fp) (by fq)
+    | maj M => exact key (inc ⟨A, B, C, pre', build'⟩) (exc (Version.mk4 (M + 1) 0 0 0)) hx (by fp) (by fq)
+    | majMin M m => exact key (inc ⟨A, B, C, pre', build'⟩) (exc (Version.mk4 M (m + 1) 0 0)) hx (by fp) (by fq)
+    | full M m p pre build =>
+      exact key (inc ⟨A, B, C, pre', build'⟩) (inc ⟨M, m, p, pre, build⟩) hx (by fp) (by fq)
+
+/-! ### the property at the level of texts -/
+
+/-- on the tables: a prerelease within an alternative that passes the gate was opted in by a
+comparator written with a tag on its tuple -/
+theorem C03_tree (a : Alt) (x : BoundSet) (hx : x ∈ evalAlt a) (v : Version) (hv : v.isPre = true)
+    (hw : x.within v = true) (hg : x.gate v = true) : altTagFor a v := by
+  rw [gate_iff_tagged] at hg
+  cases a with
+  | simples l =>
+    obtain ⟨P, Q, rfl, hP, hQ⟩ := fold_bounds l x hx
+    rw [tagged_mk] at hg
+    rw [within_mk] at hw
+    rcases hg with hg | hg
+    · obtain ⟨t, ht, np, hnp, hfp⟩ := hP
+      exact ⟨t, ht, np, hnp, fromPartial_tag hfp hg⟩
+    · obtain ⟨t, ht, np, hnp, hfq⟩ := hQ
+      rcases hfq with hfq | hd
+      · exact ⟨t, ht, np, hnp, fromPartial_tag hfq hg⟩
+      · exact absurd hg (fun hg => dash0_no_tag hd hv hw.2 hg)
+  | hyphen l h =>
+    obtain ⟨P, Q, rfl, hP, hQ⟩ := hyphen_bounds l h x hx
+    rw [tagged_mk] at hg
+    rw [within_mk] at hw
+    rcases hg with hg | hg
+    · exact Or.inl (fromPartial_tag hP hg)
+    · rcases hQ with hfq | hd
+      · exact Or.inr (fromPartial_tag hfq hg)
+      · exact absurd hg (fun hg => dash0_no_tag hd hv hw.2 hg)
+
+/-- **C03_text**: for every text of the npm range grammar that parses, a version carrying a
+prerelease tag satisfies the parsed range only if, inside one alternative of the text whose bounds
+it meets, some comparator was written with a prerelease tag on the version's major.minor.patch -/
+theorem C03_text (r : Ast) (s : List Char) (hs : AstText r s) (R : Range) (hp : Range.parse s = .ok R)
+    (v : Version) (hv : v.isPre = true) (hsat : Range.satisfies R v = true) :
+    ∃ a ∈ r, (∃ x ∈ evalAlt a, x.within v = true) ∧ altTagFor a v := by
+  rw [parse_text hs] at hp
+  split at hp
+  · cases hp
+  · cases hp
+    rw [Range.satisfies_iff] at hsat
+    obtain ⟨x, hx, hsx⟩ := hsat
+    simp only [evalAst, List.mem_flatMap] at hx
+    obtain ⟨a, ha, hxa⟩ := hx
+    have h := (satisfies_iff x v).mp hsx
+    have hg : x.gate v = true := by
+      rcases h.2 with h2 | h2
+      · rw [hv] at h2; cases h2
+      · exact h2
+    exact ⟨a, ha, ⟨x, hxa, h.1⟩, C03_tree a x hxa v hv h.1 hg⟩
+
+/-- release versions are never affected, at the level of texts -/
+theorem C03_text_release (r : Ast) (s : List Char) (hs : AstText r s) (R : Range) (hp : Range.parse s = .ok R)
+    (v : Version) (hv : v.isPre = false) :
+    Range.satisfies R v = (evalAst r).any (·.within v) := by
+  rw [parse_text hs] at hp
+  split at hp
+  · cases hp
+  · cases hp
+    exact C03_release_unaffected _ v hv
+
+/-! ### conversely: a comparator written with a tag on the tuple opens the gate -/
+
+theorem gate_of_lo {P Q : Pred} {v b : Version} (hP : P = inc b ∨ P = exc b) (hb : b.isPre = true)
+    (hs : sameTuple v b = true) : (BoundSet.mk (up Q) (lo P)).gate v = true := by
+  rw [gate_iff_tagged, tagged_mk]; exact Or.inl ⟨b, hP, hb, hs⟩
+
+theorem gate_of_up {P Q : Pred} {v b : Version} (hQ : Q = inc b ∨ Q = exc b) (hb : b.isPre = true)
+    (hs : sameTuple v b = true) : (BoundSet.mk (up Q) (lo P)).gate v = true := by
+  rw [gate_iff_tagged, tagged_mk]; exact Or.inr ⟨b, hQ, hb, hs⟩
+
+theorem caret_full_lower (M m p : Nat) (pre build : List Ident) :
+    ∃ Q', caretSet (fromNP (.full M m p pre build)) =
+      BoundSet.new (lo (inc ⟨M, m, p, pre, []⟩)) (up Q') := by
+  simp only [caretSet, fromNP]
+  exact ⟨_, rfl⟩
+
+theorem simple_tag_gate {t : Simple} {y : BoundSet} {v : Version} (h : evalSimple t = some y)
+    (ht : simpleTagFor t v) : y.gate v = true := by
+  obtain ⟨np, hnp, htag⟩ := ht
+  cases np with
+  | any => exact absurd htag id
+  | maj M => exact absurd htag id
+  | majMin M m => exact absurd htag id
+  | full M m p pre build =>
+    obtain ⟨hpre, h1, h2, h3⟩ := htag
+    have hb : ∀ bld, Version.isPre ⟨M, m, p, pre, bld⟩ = true := by
+      intro bld; cases pre with
+      | nil => exact absurd rfl hpre
+      | cons a as => rfl
+    have hs : ∀ bld, sameTuple v ⟨M, m, p, pre, bld⟩ = true := by
+      intro bld; rw [sameTuple_iff]; exact ⟨h1, h2, h3⟩
+    cases t with
+    | prim op np' =>
+      simp only [simplePartial, Option.some.injEq] at hnp; subst hnp
+      cases op
+      · have e := new_eq_some (p := unb) (q := exc ⟨M, m, p, pre, build⟩) h
+        subst e; exact gate_of_up (Or.inr rfl) (hb _) (hs _)
+      · have e := new_eq_some (p := unb) (q := inc ⟨M, m, p, pre, build⟩) h
+        subst e; exact gate_of_up (Or.inl rfl) (hb _) (hs _)
+      · have e := new_eq_some (p := exc ⟨M, m, p, pre, build⟩) (q := unb) h
+        subst e; exact gate_of_lo (Or.inr rfl) (hb _) (hs _)
+      · have e := new_eq_some (p := inc ⟨M, m, p, pre, build⟩) (q := unb) h
+        subst e; exact gate_of_lo (Or.inl rfl) (hb _) (hs _)
+      · have e := new_eq_some (p := inc ⟨M, m, p, pre, []⟩) (q := inc ⟨M, m, p, pre, []⟩) h
+        subst e; exact gate_of_lo (Or.inl rfl) (hb _) (hs _)
+    | bare np' =>
+      simp only [simplePartial, Option.some.injEq] at hnp; subst hnp
+      have e := new_eq_some (p := inc ⟨M, m, p, pre, build⟩) (q := inc ⟨M, m, p, pre, build⟩) h
+      subst e; exact gate_of_lo (Or.inl rfl) (hb _) (hs _)
+    | tilde np' =>
+      simp only [simplePartial, Option.some.injEq] at hnp; subst hnp
+      have e := new_eq_some (p := inc ⟨M, m, p, pre, []⟩) (q := exc (Version.mk4 M (m + 1) 0 0)) h
+      subst e; exact gate_of_lo (Or.inl rfl) (hb _) (hs _)
+    | caret np' =>
+      simp only [simplePartial, Option.some.injEq] at hnp; subst hnp
+      obtain ⟨np'', _, P, Q, rfl, _, _⟩ := simple_bounds h
+      -- the lower bound of a caret on a full triple is that triple
+      have hlo : P = inc ⟨M, m, p, pre, []⟩ := by
+        have hh := caret_full_lower M m p pre build
+        obtain ⟨Q', hQ'⟩ := hh
+        have h' : BoundSet.new (lo (inc ⟨M, m, p, pre, []⟩)) (up Q') = some ⟨up Q, lo P⟩ := by
+          rw [← hQ']; exact h
+        have := new_eq_some h'
+        simp only [BoundSet.mk.injEq, Bound.up.injEq, Bound.lo.injEq] at this
+        exact this.2
+      subst hlo
+      exact gate_of_lo (Or.inl rfl) (hb _) (hs _)
+    | garbage tok => cases hnp
+
+/-- **when such a comparator exists, satisfaction is decided by the bounds alone** (comparator lists):
+if `v` lies within the alternative's folded bounds and some valid comparator of the alternative was
+written with a tag on `v`'s tuple, `v` satisfies the alternative -/
+theorem C03_tree_decided (l : List Simple) (x : BoundSet) (hx : x ∈ evalAlt (.simples l)) (v : Version)
+    (hw : x.within v = true) (t : Simple) (ht : t ∈ l) (hvalid : (evalSimple t).isSome = true)
+    (htag : simpleTagFor t v) : x.satisfies v = true := by
+  rw [satisfies_iff]
+  refine ⟨hw, ?_⟩
+  cases hv : v.isPre with
+  | false => exact Or.inl rfl
+  | true =>
+    right
+    obtain ⟨y, hy⟩ := Option.isSome_iff_exists.mp hvalid
+    have hyg := simple_tag_gate hy htag
+    have hmem : y ∈ C02.setsOf l := by
+      simp only [C02.setsOf, List.mem_filterMap, List.mem_map, id]
+      exact ⟨some y, ⟨t, ht, hy⟩, rfl⟩
+    have hne : C02.setsOf l ≠ [] := by intro h0; rw [h0] at hmem; cases hmem
+    simp only [evalAlt] at hx
+    rw [C02.foldSets_filter] at hx
+    rcases C02.C02_fold_sem (C02.setsOf l) (C02.setsOf_wf l) hne with ⟨r, hr, _, hsem⟩ | ⟨hr, _⟩
+    · rw [show (List.map evalSimple l).filterMap id = C02.setsOf l from rfl, hr] at hx
+      simp only [List.mem_singleton] at hx
+      subst hx
+      exact ((hsem v).2 hv hw).mpr ⟨y, hmem, hyg⟩
+    · rw [show (List.map evalSimple l).filterMap id = C02.setsOf l from rfl, hr] at hx
+      cases hx
+
+theorem C03_text_decided (r : Ast) (s : List Char) (hs : AstText r s) (R : Range) (hp : Range.parse s = .ok R)
+    (l : List Simple) (ha : Alt.simples l ∈ r) (x : BoundSet) (hx : x ∈ evalAlt (.simples l)) (v : Version)
+    (hw : x.within v = true) (t : Simple) (ht : t ∈ l) (hvalid : (evalSimple t).isSome = true)
+    (htag : simpleTagFor t v) : Range.satisfies R v = true := by
+  rw [parse_text hs] at hp
+  split at hp
+  · cases hp
+  · cases hp
+    rw [Range.satisfies_iff]
+    refine ⟨x, ?_, C03_tree_decided l x hx v hw t ht hvalid htag⟩
+    simp only [evalAst, List.mem_flatMap]
+    exact ⟨_, ha, hx⟩
+
+/-! non-vacuity: `>=1.2.3-alpha <2` opts `1.2.3-beta` in -/
+example : simpleTagFor (.prim .ge (.full 1 2 3 [.alpha ['a']] [])) ⟨1, 2, 3, [.alpha ['b']], []⟩ :=
+  ⟨_, rfl, by simp [npTagFor]⟩
+
 end Semver.C03
